@@ -23,7 +23,8 @@ def source_list():
     return [w for w in m.group(1).split() if w.endswith(".cc")]
 
 def build(flavour, drivers):
-    bdir = os.path.join(ROOT, ".build", flavour)
+    tag = os.environ.get("VERIF_BUILD_TAG", "")
+    bdir = os.path.join(ROOT, ".build", flavour + ("-" + tag if tag else ""))
     os.makedirs(bdir, exist_ok=True)
     srcs = source_list()
     objs = [s[:-3] + ".o" for s in srcs]
